@@ -621,6 +621,7 @@ func main() {
 
 	// --- descriptors ---
 	runDescriptors(r)
+	runHistories(r)
 	closed := make(chan struct{})
 	go func() { bgCloses.Wait(); close(closed) }()
 	select {
@@ -637,7 +638,8 @@ func main() {
 		"a third of the URIs and MIME types are look-alikes; structured content and _meta (tools, prompts) with each of the 17 member names the decoders look for (error, result, id, jsonrpc, method, params, code, message, content, isError, contents, messages, type, text, data, resource, _meta) "+
 		"at 4 nesting levels (through objects and arrays) with the value kinds null / object / string / number rotated over the levels (all 4 rotations, so every name x depth x value kind), whole protocol envelopes as the value or nested in it, empty / blank / case-variant keys, numbers at the float64 / int64 / uint64 limits and in exponent form; "+
 		"every value is served by a handler (in-process server or the stdio child) and fetched with the library client of each of the 7 configurations, compared structurally item by item and byte by byte; "+
-		"descriptors: tools (NewTool + With* options, 81 annotation combinations, struct-derived schemas), prompts and resources listed through each client and compared as sets by name. "+
+		"descriptors: tools (NewTool + With* options, 81 annotation combinations, struct-derived schemas), prompts and resources listed through each client and compared as sets by name; "+
+		"registration histories: tools, prompts and resources registered one to five times under the same name / URI with another descriptor and another handler (RegisterTool, UnregisterTools, RegisterPrompt, RegisterResource, RegisterResources in every alternation), before the handshake and in two phases after it (performed inside the server process, also the stdio child), unregister + re-register; after every phase the listed descriptors are compared with the last registered ones and every entry is called / got / read and the answer attributed to a handler version. "+
 		"A case is distinct by (method, configuration, kind sequence, string-class vector) and non-trivial when the client's value or error was compared with the handler's.",
 		[]string{
 			"invalid UTF-8 and lone surrogates are outside the statement (encoding/json replaces them) and are not generated",
@@ -650,6 +652,8 @@ func main() {
 			"a call that neither returns nor fails within 60 s is reported as inconclusive",
 			"the handler's message is err.Error() of the value the handler returned; the caller's error text has to contain all of it (for error values of every form, as for plain errors); error types with a fmt.Formatter print Error() under %v and %s",
 			"list order and pagination are not examined",
+			"resource templates cannot be listed through the library clients and a second registration of a template name is rejected by the servers; histories of templates are not examined",
+			"a tool that was unregistered and not registered again is expected to be absent from tools/list; it is not called",
 		})
 }
 
